@@ -4,7 +4,7 @@
 From Coq Require Import ZArith List Bool.
 Import ListNotations.
 Require Import Grist.Model.ActionLog Grist.Model.ActionLogEnc Grist.Proofs.ActionLog_proofs Grist.Proofs.ActionLog_calc
-  Grist.Proofs.ActionLog_stage3 Grist.Proofs.ActionLogEnc_laws.
+  Grist.Proofs.ActionLog_frame Grist.Proofs.ActionLog_flush2 Grist.Proofs.ActionLog_stage3 Grist.Proofs.ActionLogEnc_laws.
 Open Scope Z_scope.
 
 (* The statement at full strength, for a class `wf_events` of event lists: replaying the undo list of a
@@ -53,7 +53,9 @@ Proof. intros tt H. apply C01_undo_restores_docs_calcs_partial. apply EOps_laws.
    `bundle_ok2` accepts):
      - a calc delta whose rows exist and whose first `before` per row equals the current cell up to encoding (SC2);
      - RenameColumn / RenameTable to a name without the reserved prefix, WHATEVER is pending (increment 1);
-     - any lossless doc action (as in stage 1) while no calc delta is pending (increment 2: "nothing pending");
+     - any lossless doc action (as in stage 1) that keeps off the cells with a pending delta: it does not write, create
+       or destroy a cell for which the summary holds a delta (SC1; `avoidb`, an over-approximation `touch` of the cells
+       an action may affect) -- in particular any lossless doc action while nothing is pending (increment 2);
      - the per-column flush of doModifyColumn for a column that has no pending delta (a no-op on the lists);
      - the triple of doModifyColumn: ModifyColumn t c (any change of the column info, INCLUDING a change of type), the
        conversion delta Calc t c (optional), FlushCol t c -- one step of the invariant (increment 3).  Side conditions:
@@ -64,7 +66,9 @@ Proof. intros tt H. apply C01_undo_restores_docs_calcs_partial. apply EOps_laws.
    real document through the pending deltas (calc_rel), with: the undo list so far restores the start document from any
    document that agrees with g outside the cells created in the bundle (tr_ok); the stored list so far, replayed on the
    start document, reaches g (redo_ok).  Deltas travel with the renames exactly as LabelRenames moves the keys
-   (dget_rencol, dget_rentab); with nothing pending the ghost is re-based on the real document (gi_rebase); for the
+   (dget_rencol, dget_rentab); a doc action that keeps off the pending cells is taken by the ghost too, and the REAL
+   undo actions are shown to work from the ghost side because neither the action nor its undo actions move an untouched
+   cell (frame, undo_touch; Proofs/ActionLog_frame.v); for the
    doModifyColumn triple the ghost takes the ModifyColumn and the stored update of the flush, and the restore block,
    which the flush places BEFORE the ModifyColumn undo, is shown to put back exactly the cells the type round trip
    does not (block_one, a restore block with a tight exception set; Proofs/ActionLog_cells.v). *)
@@ -85,36 +89,50 @@ Theorem C01_undo_restores_calc_then_rename_encoded_partial : forall tt, tt_ok tt
   C01_statement (EOps tt) (stage3_events (EOps tt)).
 Proof. intros tt H. apply C01_undo_restores_stage3_partial. apply EOps_laws. exact H. Qed.
 
-(* the steps of the invariant, one statement per kind of event (gi s0 g m: see above) *)
-Theorem C01_stage3_steps : forall O (L : ValLaws O) s0 g m m',
-  gi O s0 g m ->
-  (forall t c chs, calc_event_ok O m t c chs -> step O m (Calc O t c chs) = Ok m' -> gi O s0 g m') /\
-  (forall t old new, is_defunct new = false -> step O m (Doc O (RenameColumn O t old new)) = Ok m' -> exists g', gi O s0 g' m') /\
-  (forall old new, is_defunct new = false -> step O m (Doc O (RenameTable O old new)) = Ok m' -> exists g', gi O s0 g' m') /\
-  (forall a, quiet O (m_sum O m) -> (forall t c r, ~ lossy O a (m_doc O m) t c r) -> act_names_ok O a ->
-             step O m (Doc O a) = Ok m' -> gi O s0 (m_doc O m') m' /\ quiet O (m_sum O m')) /\
-  (forall t c, no_delta_entry O (m_sum O m) t c = true -> step O m (FlushCol O t c) = Ok m' -> gi O s0 g m') /\
+(* the steps of the invariant, one statement per kind of event (gi s0 g D m: see above; D lists the cells of the start
+   document that are left to front-inserted restores -- empty in the class proved so far) *)
+Theorem C01_stage3_steps : forall O (L : ValLaws O) s0 g D m m',
+  gi O s0 g D m ->
+  (forall t c chs, calc_event_ok O m t c chs -> step O m (Calc O t c chs) = Ok m' -> gi O s0 g D m') /\
+  (forall t old new, is_defunct new = false -> step O m (Doc O (RenameColumn O t old new)) = Ok m' -> exists g', gi O s0 g' D m') /\
+  (forall old new, is_defunct new = false -> step O m (Doc O (RenameTable O old new)) = Ok m' -> exists g', gi O s0 g' D m') /\
+  (forall a DN, is_rename O a = false ->
+             (forall t c r, touch O a t c r -> dget O (m_sum O m) t c r <> None -> is_rmrec O a = true) ->
+             (forall t c r, ~ lossy O a (m_doc O m) t c r) -> act_names_ok O a ->
+             (forall t c r, img_list O (rev (m_undo O m))
+                                     (fun t c r => pending O (m_sum O m) t c r /\ touch O a t c r) t c r -> inD DN t c r) ->
+             step O m (Doc O a) = Ok m' -> exists g', gi O s0 g' (D ++ DN) m') /\
+  (forall t c, no_delta_entry O (m_sum O m) t c = true -> step O m (FlushCol O t c) = Ok m' -> gi O s0 g D m') /\
   (forall t c mi ochs, modflush_okb O m t c mi ochs = true -> steps O m (modflush_events O t c mi ochs) = Ok m' ->
-                       exists g', gi O s0 g' m').
+                       exists g', gi O s0 g' D m').
 Proof.
-  intros O L s0 g m m' Hgi. split; [|split; [|split; [|split; [|split]]]].
-  - intros t c chs H1 H2. exact (gi_calc O L _ _ _ _ _ _ _ Hgi H1 H2).
-  - intros t old new H1 H2. exact (gi_rename_col O L _ _ _ _ _ _ _ Hgi H1 H2).
-  - intros old new H1 H2. exact (gi_rename_table O L _ _ _ _ _ _ Hgi H1 H2).
-  - intros a H1 H2 H3 H4. exact (gi_doc_quiet O L _ _ _ _ _ Hgi H1 H2 H3 H4).
-  - intros t c H1 H2. exact (gi_flushcol_nil O _ _ _ _ _ _ Hgi H1 H2).
-  - intros t c mi ochs H1 H2. exact (gi_modflush O L _ _ _ _ _ _ _ _ Hgi H1 H2).
+  intros O L s0 g D m m' Hgi. split; [|split; [|split; [|split; [|split]]]].
+  - intros t c chs H1 H2. exact (gi_calc O L D _ _ _ _ _ _ _ Hgi H1 H2).
+  - intros t old new H1 H2. exact (gi_rename_col O L D _ _ _ _ _ _ _ Hgi H1 H2).
+  - intros old new H1 H2. exact (gi_rename_table O L D _ _ _ _ _ _ Hgi H1 H2).
+  - intros a DN H1 H2 H3 H4 H5 H6. exact (gi_doc_frame O L D _ _ _ _ _ DN Hgi H1 H2 H3 H4 H5 H6).
+  - intros t c H1 H2. exact (gi_flushcol_nil O D _ _ _ _ _ _ Hgi H1 H2).
+  - intros t c mi ochs H1 H2. exact (gi_modflush O L D _ _ _ _ _ _ _ _ Hgi H1 H2).
 Qed.
 
-(* ... and what the invariant gives at the flush that ends the bundle *)
-Theorem C01_stage3_flush : forall O (L : ValLaws O) s0 g m,
-  gi O s0 g m ->
+(* ... and what the invariant gives at the flush that ends the bundle: whatever the summary holds, the flush appends
+   the stored updates and the restores of the PRUNED summary (deltas of cells that are gone dropped) and inserts the
+   restores all_fronts at the front of the undo list (flush_all_gen, unconditional); if those put values of the start
+   document into cells of the start document and cover the cells D (fronts_okb, computable), undo and redo work *)
+Theorem C01_stage3_flush : forall O (L : ValLaws O) s0 g D m,
+  gi O s0 g D m -> wf_state O s0 -> fronts_okb O s0 (all_fronts O (m_sum O m)) D = true ->
   flush_all O (m_sum O m) (m_stored O m, m_undo O m) =
-    Ok (m_stored O m ++ all_sblocks O (m_sum O m), m_undo O m ++ all_blocks O (m_sum O m)) /\
-  (exists s'', replay_doc O (rev (m_undo O m ++ all_blocks O (m_sum O m))) (m_doc O m) = Ok s'' /\ seq O s'' s0) /\
+    Ok (m_stored O m ++ all_sblocks O (prune O (m_sum O m)),
+        all_fronts O (m_sum O m) ++ m_undo O m ++ all_blocks O (prune O (m_sum O m))) /\
+  (exists s'', replay_doc O (rev (all_fronts O (m_sum O m) ++ m_undo O m ++ all_blocks O (prune O (m_sum O m)))) (m_doc O m) = Ok s'' /\
+               seq O s'' s0) /\
   (forall s1, seq O s1 s0 ->
-     exists s2, replay_doc O (m_stored O m ++ all_sblocks O (m_sum O m)) s1 = Ok s2 /\ seq O s2 (m_doc O m)).
-Proof. intros O L s0 g m H. exact (gi_flush O L s0 g m H). Qed.
+     exists s2, replay_doc O (m_stored O m ++ all_sblocks O (prune O (m_sum O m))) s1 = Ok s2 /\ seq O s2 (m_doc O m)).
+Proof. intros O L s0 g D m H Hwf Hfr. exact (gi_flush O L s0 g D m H Hwf Hfr). Qed.
+
+Theorem C01_flush_in_general : forall O (sm : summary O) S U,
+  flush_all O sm (S, U) = Ok (S ++ all_sblocks O (prune O sm), all_fronts O sm ++ U ++ all_blocks O (prune O sm)).
+Proof. intros O sm S U. apply flush_all_gen. Qed.
 
 (* Each doc action is undone by the undo actions it appended, except for the cells in `lossy` (restored by
    the engine through the calc summary, by recalculation, or by the conversion delta of doModifyColumn). *)
@@ -277,6 +295,48 @@ Proof.
   split; [vm_compute; reflexivity|]. split; [reflexivity|]. split; vm_compute; reflexivity.
 Qed.
 
+(* Doc actions after a calc delta that keep off the pending cell (row 1 of F): a record is added, another cell is
+   updated, a column is added; more calc deltas follow.  The last event removes row 3, which has a pending delta by
+   then; the row was added in the bundle, so no restore is needed for it. *)
+Definition ex7_events : list (event ZOps) :=
+  [ Doc ZOps (BulkUpdateRecord ZOps nT [1] [(nA, [11])]);
+    Calc ZOps nT nF [(1, (10, 11))];
+    Doc ZOps (BulkAddRecord ZOps nT [3] [(nA, [30])]);
+    Doc ZOps (BulkUpdateRecord ZOps nT [2] [(nA, [21])]);
+    Doc ZOps (AddColumn ZOps nT nC ciData);
+    Calc ZOps nT nF [(3, (0, 30)); (2, (20, 21))];
+    Doc ZOps (BulkRemoveRecord ZOps nT [3]) ].
+
+Example C01_frame_nonvacuous :
+  bundle_ok3 ZOps ex3_state ex7_events = true /\ bundle_ok2 ZOps ex3_state ex7_events = false /\
+  exists s' out s'', run ZOps ex3_state ex7_events = Ok (s', out) /\
+                 replay_doc ZOps (rev (o_undo ZOps out)) s' = Ok s'' /\ view ZOps s'' = view ZOps ex3_state.
+Proof.
+  split; [vm_compute; reflexivity|]. split; [vm_compute; reflexivity|].
+  eexists. eexists. eexists. split; [vm_compute; reflexivity|]. split; vm_compute; reflexivity.
+Qed.
+
+(* A record with a pending delta is removed: the undo of the removal puts the row back with the RECALCULATED value of F,
+   and the flush inserts the restore of F at the FRONT of the undo list, so that it is replayed last.  The class
+   demands (fronts_okb) that this restore holds the value of the start document -- which fails when the bundle itself
+   wrote the cell before the recalculation (ex9: the known defect C01_refuted_front_restore_written_cell). *)
+Definition ex8_events : list (event ZOps) :=
+  [ Doc ZOps (BulkUpdateRecord ZOps nT [2] [(nA, [21])]);
+    Calc ZOps nT nF [(2, (20, 21))];
+    Doc ZOps (BulkRemoveRecord ZOps nT [2]) ].
+
+Example C01_remove_record_nonvacuous :
+  bundle_ok3 ZOps ex3_state ex8_events = true /\
+  exists s' out s'', run ZOps ex3_state ex8_events = Ok (s', out) /\
+                 o_undo ZOps out = [BulkUpdateRecord ZOps nT [2] [(nF, [20])];
+                                    BulkUpdateRecord ZOps nT [2] [(nA, [20])];
+                                    BulkAddRecord ZOps nT [2] [(nA, [21]); (nF, [21])]] /\
+                 replay_doc ZOps (rev (o_undo ZOps out)) s' = Ok s'' /\ view ZOps s'' = view ZOps ex3_state.
+Proof.
+  split; [vm_compute; reflexivity|].
+  eexists. eexists. eexists. split; [vm_compute; reflexivity|]. split; [reflexivity|]. split; vm_compute; reflexivity.
+Qed.
+
 (* The triple of doModifyColumn on a concrete bundle: the type of the data column A changes (with the values of this
    toy instance every conversion is the identity), row 1 gets a conversion delta, the column is flushed, and doc
    actions follow.  The restore of the flush sits BEFORE the ModifyColumn undo in the undo list. *)
@@ -334,6 +394,10 @@ Definition r3_events : list (event ZOps) :=
   [ Doc ZOps (BulkUpdateRecord ZOps nT [1] [(nA, [5])]);
     Calc ZOps nT nA [(1, (5, 1050))];
     Doc ZOps (BulkRemoveRecord ZOps nT [1]) ].
+
+(* ... and the class of stage 3 excludes it exactly at the final check on the front-inserted restores *)
+Example C01_refuted_witness_outside_class : bundle_ok3 ZOps ex3_state r3_events = false.
+Proof. vm_compute. reflexivity. Qed.
 
 Theorem C01_refuted_front_restore_written_cell :
   exists s es s' out s'' T C, wf_state ZOps s /\ run ZOps s es = Ok (s', out) /\
